@@ -71,10 +71,37 @@ SPEC = dict(
 )
 
 
+def string_literals(ctx):
+    """set / declare / += with string literals that contain escaped quotes and backslashes: what is stored is the literal's content
+    as written or with the escapes resolved (no property says which); every character of the literal counts under both readings."""
+    tp = ctx.path("strlits.ndjson")
+    ctx.harness(["core", "widearith", "--strings", "1", "--out", tp])
+    t = ctx.tlc("WideArithTrace", files=[("trace.ndjson", tp)], workers=1, timeout=600, label="WideArithTrace (values of string literals with escapes)")
+    res = t.printed("RESULT")
+    events = vlib.read_ndjson(tp)
+    if not res or res[-1]["lines"] != len(events):
+        raise vlib.MachineryError("string literal trace not consumed:\n" + t.tail())
+    if any(b["what"] == "malformed-event" for b in res[-1]["bad"]):
+        raise vlib.MachineryError("the harness wrote a malformed string literal event: %s" % res[-1]["bad"][0])
+
+    def show(tok):
+        return repr(bytes.fromhex(tok[1:]).decode("utf-8", "replace")) if tok.startswith("s") else tok
+    for b in res[-1]["bad"][:3]:
+        e = events[b["line"] - 1]
+        stmt = {"strset": "<<set $r = %s>>", "strdecl": "<<declare $r = %s>>", "strapp": "<<set $r = \"x\">> <<set $r += %s>>"}[e["op"]] % e["src"]
+        ctx.violation({"kind": "strlit", "event": e},
+                      "%s stored %s; the literal's value is %s (as written) or %s (escapes resolved)" % (stmt, show(e["got"]), show(e["exp"]), show(e["alt"])),
+                      signature="vars:string-literal-" + b["what"])
+    ctx.cover(string_literal_assignments=len(events))
+
+
 def run(ctx):
     thorough = ctx.tier == "thorough"
     if ctx.replay:
         rp = json.load(open(ctx.replay))["payload"]
+        if rp.get("kind") == "strlit":
+            ctx.build()
+            return string_literals(ctx)
         if rp.get("kind") == "storer-history":
             ctx.build()
             bp = ctx.path("storer_beh.ndjson")
@@ -88,5 +115,6 @@ def run(ctx):
         return cc.run_core_check(ctx, SPEC)
     cc.run_core_check(ctx, SPEC)
     n, behs = storer_part(ctx, thorough)
+    string_literals(ctx)
     ctx.cover(traces_validated_against_impl=n, evaluations=n)
     ctx.coverage["samples"] = (ctx.coverage.get("samples") or []) + [{"storer_history": behs[len(behs) // 3]}]
